@@ -8,6 +8,7 @@ mod c04gen;
 mod c04u;
 mod c05;
 mod c05gen;
+mod c05sqlgen;
 mod util;
 
 use dvcommon::{parse_kv, Args, Stats};
@@ -80,6 +81,16 @@ fn run(ops: &str, out: &str, stats_path: Option<&str>) {
                 }
                 None => "bad-op".into(),
             },
+            "sqlck" | "sqltbl" => match case05.as_mut() {
+                Some(c) => match std::panic::catch_unwind(std::panic::AssertUnwindSafe(|| c05::step_sql(c, &kind, &kv, &mut stats))) {
+                    Ok(l) => l,
+                    Err(_) => {
+                        stats.inc("panics");
+                        "panic".into()
+                    }
+                },
+                None => "bad-op".into(),
+            },
             "new" | "upd" => match case04u.as_mut() {
                 Some(c) => match std::panic::catch_unwind(std::panic::AssertUnwindSafe(|| c04u::step(c, &kind, &kv, &mut stats, &scratch))) {
                     Ok(l) => l,
@@ -134,6 +145,12 @@ fn main() {
                 &a.str_or("tier", "quick"),
             ),
             "C05" => c05gen::gen(
+                a.u64_or("seed", 1),
+                a.usize_or("n", 100),
+                &a.str_or("out", "cases.ops"),
+                &a.str_or("tier", "quick"),
+            ),
+            "C05sql" => c05sqlgen::gen(
                 a.u64_or("seed", 1),
                 a.usize_or("n", 100),
                 &a.str_or("out", "cases.ops"),
